@@ -15,9 +15,18 @@
     nothing to charge - it has left the queue for Idle) unless its own update failed (its
     transition was not enabled — with the repaired `ChargeQueueing` a queued vehicle is at the
     station (C07), has access (C10), can use the plug (F12) and is not sent to a plug it cannot
-    draw from when full (F23), so this only happens on an environment error).
+    draw from when full (F23), so this only happens on an environment error);
+  * `fifo_enabled` — the same WITHOUT that proviso: if the counters match the vehicles (C02: `inv02`)
+    and `q'` stands at the station (C07), has access (C10), can use the plug type and has registered
+    mechatronics (what `ChargeQueueing.enter` requires; all static while it waits), then `q'`'s own
+    update goes through (`queue_turn_succeeds`: every step of `default_update` of a queued vehicle
+    succeeds) and `q'` has left the queue whenever a later arrival leaves it to charge. Hypotheses on
+    the environment: no geofence refusal, and the physics predicates read mechatronics, energy and
+    the plug's energy type only (`EnvCongr`, proved for the driver's environment).
 -/
 import Proofs.C18
+import Proofs.Enabled
+import Properties.C02
 
 namespace Hive
 namespace C18
@@ -91,6 +100,138 @@ theorem fifo (env : Env) {w : World} (hwf : w.sim.WF) {q' q : Vehicle}
   rw [hvu, hord] at hcharging ⊢
   rw [hord] at hndq hall
   exact ⟨qfold env pre (qfold env others w), fifo_fold hwf0 hndq hall ha' ha hcharging⟩
+
+section Enabled
+variable {env : Env}
+
+/-- **C18 with the turn of the earlier vehicle exposed**: as `C18.fifo`, and the state in which
+    `q'`'s turn came is the update fold over a list `L` of vehicles of the snapshot, without
+    repetitions, that does not contain `q'` -/
+theorem fifo_at (env : Env) {w : World} (hwf : w.sim.WF) {q' q : Vehicle}
+    (hq' : q' ∈ w.sim.vehicles) (hq : q ∈ w.sim.vehicles) {sid : StationId} {cid : ChargerId} {t' t : Time}
+    (ha' : q'.act = .chargeQueueing sid cid t') (ha : q.act = .chargeQueueing sid cid t)
+    (hlt : t' < t ∨ (t' = t ∧ q'.id < q.id))
+    (hcharging : ∃ veh, (vehicleUpdates env w).sim.vehicle? q.id = some veh ∧ veh.act = .chargingStation sid cid) :
+    ∃ L : List Vehicle, (L.map Vehicle.id).Nodup ∧ q'.id ∉ L.map Vehicle.id ∧ (∀ x ∈ L, x ∈ w.sim.vehicles) ∧
+      0 < availOf (qfold env L w).sim sid cid ∧
+      ((∃ w2, defaultUpdate env (qfold env L w) q'.id q'.act = .ok w2) →
+        ∃ veh, (vehicleUpdates env w).sim.vehicle? q'.id = some veh ∧ leftQueue veh.act sid cid) := by
+  obtain ⟨pre, mid, post, hord⟩ := processing_order hq' hq ha' ha hlt
+  have hvu : vehicleUpdates env w = qfold env (queueOrder w.sim.vehicles)
+      (qfold env (sortBy (fun a b => decide (a.id ≤ b.id))
+        (w.sim.vehicles.filter fun v => !(match v.act with | .chargeQueueing _ _ _ => true | _ => false))) w) := by
+    unfold vehicleUpdates
+    rw [updateOrder_eq]
+    exact qfold_append _ _ _
+  set others := sortBy (fun a b : Vehicle => decide (a.id ≤ b.id))
+    (w.sim.vehicles.filter fun v => !(match v.act with | .chargeQueueing _ _ _ => true | _ => false)) with hothers
+  have hperm := updateOrder_perm w.sim.vehicles
+  rw [updateOrder_eq] at hperm
+  have hndall0 : ((others ++ queueOrder w.sim.vehicles).map Vehicle.id).Nodup :=
+    (List.Perm.nodup_iff (hperm.map Vehicle.id)).mpr hwf.veh
+  have hndall := hndall0
+  rw [List.map_append, List.nodup_append] at hndall
+  obtain ⟨hndo, hndq, hdisj⟩ := hndall
+  obtain ⟨hwf0, ho0⟩ := fold_frame (env := env) others hwf hndo
+  have hall : ∀ x ∈ queueOrder w.sim.vehicles,
+      isQueued x ∧ ∃ veh, (qfold env others w).sim.vehicle? x.id = some veh ∧ veh.act = x.act := by
+    intro x hx
+    have hxmem : x ∈ w.sim.vehicles := by
+      apply hperm.mem_iff.mp
+      exact List.mem_append_right _ hx
+    have hxq : isQueued x := by
+      unfold queueOrder at hx
+      rw [(sortBy_perm _ _).mem_iff, List.mem_filter] at hx
+      cases hxa : x.act <;> simp [hxa] at hx
+      exact ⟨_, _, _, hxa⟩
+    refine ⟨hxq, x, ?_, rfl⟩
+    rw [ho0 x.id]
+    · exact lookup_of_mem hwf.veh hxmem
+    · intro hin
+      exact hdisj _ hin _ (List.mem_map_of_mem hx) rfl
+  rw [hvu, hord] at hcharging ⊢
+  rw [hord] at hndq hall hndall0
+  have hmain := fifo_fold hwf0 hndq hall ha' ha hcharging
+  rw [← qfold_append] at hmain
+  refine ⟨others ++ pre, ?_, ?_, ?_, hmain⟩
+  · -- a prefix of the order: no repetitions
+    have : (others ++ (pre ++ q' :: mid ++ q :: post)) = (others ++ pre) ++ (q' :: mid ++ q :: post) := by simp
+    rw [this, List.map_append, List.nodup_append] at hndall0
+    exact hndall0.1
+  · intro hin
+    have : (others ++ (pre ++ q' :: mid ++ q :: post)) = (others ++ pre) ++ (q' :: mid ++ q :: post) := by simp
+    rw [this, List.map_append, List.nodup_append] at hndall0
+    exact hndall0.2.2 _ hin _ (List.mem_map_of_mem (by simp)) rfl
+  · intro x hx
+    apply hperm.mem_iff.mp
+    rw [hord]
+    rcases List.mem_append.mp hx with h | h
+    · exact List.mem_append_left _ h
+    · exact List.mem_append_right _ (by simp [h])
+
+/-- **C18 without the enabledness hypothesis**: if the counters match the vehicles (C02) and the
+    earlier vehicle `q'` is where its entry into the queue required it to be - at the station, with
+    access, able to use the plug type, registered mechatronics (C07, C10 and the repaired
+    `ChargeQueueing.enter` keep these) - then `q'`'s own update goes through, so: whenever a later
+    arrival `q` leaves the queue to charge, `q'` has left the queue too -/
+theorem fifo_enabled (hf : ∀ c, env.inFence c = true) (hc : EnvCongr env) {w : World} (hwf : w.sim.WF)
+    (h02 : inv02 w.sim = true) {q' q : Vehicle}
+    (hq' : q' ∈ w.sim.vehicles) (hq : q ∈ w.sim.vehicles) {sid : StationId} {cid : ChargerId} {t' t : Time}
+    (ha' : q'.act = .chargeQueueing sid cid t') (ha : q.act = .chargeQueueing sid cid t)
+    (hlt : t' < t ∨ (t' = t ∧ q'.id < q.id))
+    {st : Station} {cs : ChargerState} (hst : w.sim.station? sid = some st) (hcs : st.plug? cid = some cs)
+    (hknown : env.mechKnown q'.mech = true) (hloc : q'.pos.cell = st.pos.cell)
+    (hacc : st.members.grants q'.members = true) (huse : env.validCharger q' cs = true)
+    (hcharging : ∃ veh, (vehicleUpdates env w).sim.vehicle? q.id = some veh ∧ veh.act = .chargingStation sid cid) :
+    ∃ veh, (vehicleUpdates env w).sim.vehicle? q'.id = some veh ∧ leftQueue veh.act sid cid := by
+  obtain ⟨L, hnd, hnot, hmem, _, himp⟩ := fifo_at env hwf hq' hq ha' ha hlt hcharging
+  apply himp
+  -- q' is untouched when its turn comes
+  obtain ⟨hwfq, hoq⟩ := fold_frame (env := env) L hwf hnd
+  have hvq : (qfold env L w).sim.vehicle? q'.id = some q' := by
+    rw [hoq _ hnot]; exact lookup_of_mem hwf.veh hq'
+  -- the station is statically the same
+  obtain ⟨_, hstat⟩ := fold_static (env := env) L hwf
+  have hs := hstat sid
+  rw [hst] at hs
+  cases hst1 : (qfold env L w).sim.station? sid with
+  | none => rw [hst1] at hs; cases hs
+  | some st1 =>
+    rw [hst1] at hs
+    simp only [Option.map_some, Option.some.injEq, stnStatic, Prod.mk.injEq] at hs
+    obtain ⟨hpos, hmemb, hplugs⟩ := hs
+    -- the plug type is statically the same
+    have hpl := lookup_core (f := plugStatic) (key := ChargerState.id) (fun c => c.1) (fun _ => rfl) hplugs cid
+    have hcs' : lookup ChargerState.id st.plugs cid = some cs := hcs
+    rw [hcs'] at hpl
+    cases hcs1 : lookup ChargerState.id st1.plugs cid with
+    | none => rw [hcs1] at hpl; cases hpl
+    | some cs1 =>
+      rw [hcs1] at hpl
+      simp only [Option.map_some, Option.some.injEq] at hpl
+      -- the counters still match: the queue counter counts q'
+      have honest : ∀ x ∈ L, ∃ veh, w.sim.vehicle? x.id = some veh ∧ veh.act = x.act :=
+        fun x hx => ⟨x, lookup_of_mem hwf.veh (hmem x hx), rfl⟩
+      have h02q : inv02 (qfold env L w).sim = true :=
+        (updates_fold_inv (C02.runInv env).toStepInv hwf h02 hnd honest).1
+      have henq : 0 < cs1.enq := by
+        unfold inv02 at h02q
+        simp only [Bool.and_eq_true, List.all_eq_true] at h02q
+        have h1 := h02q.1 st1 (station?_some hst1).1
+        unfold stationOk at h1
+        simp only [List.all_eq_true] at h1
+        have h2 := h1 cs1 (lookup_some hcs1).1
+        unfold plugOk at h2
+        simp only [Bool.and_eq_true, beq_iff_eq] at h2
+        rw [h2.2]
+        apply List.countP_pos_iff.mpr
+        refine ⟨q', (vehicle?_some hvq).1, ?_⟩
+        simp [queuesFor, ha', (station?_some hst1).2, (lookup_some hcs1).2]
+      have huse1 : env.validCharger q' cs1 = true := by rw [hc.valid q' cs1 cs hpl]; exact huse
+      rw [ha']
+      exact queue_turn_succeeds hf hc hvq hst1 hcs1 hknown (by rw [hloc, hpos]) (by rw [hmemb]; exact hacc) huse1 henq
+
+end Enabled
 
 /-! non-vacuity: the processing order of a small snapshot -/
 private def p0 : Pos := ⟨0, 0⟩
